@@ -109,3 +109,18 @@ Lemma unsolved_use_is_symbolic cx k s d :
   qualify (c_ns cx) k s = Ok d -> solved_now (c_st cx) d = None ->
   resolve cx (PLabel k s) = Ok (CSym d).
 Proof. intros Hq Hs. cbn [resolve]. rewrite Hq. cbn [bind]. rewrite Hs. reflexivity. Qed.
+
+(* the same for @sizeof (repair 86e9815): a size that can be computed when the use is parsed is frozen into the
+   expression; one that cannot stays symbolic and is looked up when linking *)
+Lemma solved_sizeof_is_constant cx k s d v :
+  qualify (c_ns cx) k s = Ok d -> eval_top (c_st cx) [NSizeOf d] = Val v ->
+  resolve cx (PSizeOf k s) = Ok (CNum v).
+Proof. intros Hq Hs. cbn [resolve]. rewrite Hq. cbn [bind]. rewrite Hs. reflexivity. Qed.
+
+Lemma unsolved_sizeof_is_symbolic cx k s d :
+  qualify (c_ns cx) k s = Ok d -> (forall v, eval_top (c_st cx) [NSizeOf d] <> Val v) ->
+  resolve cx (PSizeOf k s) = Ok (CSizeof d).
+Proof.
+  intros Hq Hs. cbn [resolve]. rewrite Hq. cbn [bind].
+  destruct (eval_top (c_st cx) [NSizeOf d]) as [v| |c] eqn:E; [exfalso; eapply Hs; reflexivity|reflexivity|reflexivity].
+Qed.
